@@ -1069,6 +1069,16 @@ impl CompileState<'_> {
 
         let arg_defs = recall_block.arguments.as_slice();
 
+        if arg_defs.len() != fc.arguments.len() {
+            let note = format!(
+                "call to recall block `{}` has {} arguments and it should have {}",
+                fc.identifier,
+                fc.arguments.len(),
+                arg_defs.len()
+            );
+            return Err(self.err(BadArgument(note, fc.span())));
+        }
+
         let mut arguments = Vec::new();
         for (param, arg_e) in arg_defs.iter().zip(fc.arguments.iter()) {
             let arg_te = self.lower_expression(arg_e)?;
